@@ -322,6 +322,26 @@ pub mod spec {
             f32_le(0.0f32, f_max_value()), f32_le(0.0f32, f_infinity()), f32_le(f_min_value(), 0.0f32), f32_le(f_neg_infinity(), 0.0f32);
     /// f32::clamp as std implements it: NaN passes through; panics unless min <= max (which excludes NaN bounds)
     pub open spec fn f_clamp(x: f32, lo: f32, hi: f32) -> f32 { if f32_lt(x, lo) { lo } else if f32_gt(x, hi) { hi } else { x } }
+    // R13: `v.sort_by(|a, b| a.partial_cmp(b).unwrap())` and `v.sort_by(|a, b| a.total_cmp(b))` -- wrappers whose bodies are these calls.
+    // ASSUMED (std: stable sort by the comparator): the result is a permutation of the input, ordered by the comparator; for bool the
+    // comparator is false < true; for f32 total_cmp is an uninterpreted total preorder `f_total_le`.
+    pub uninterp spec fn sorted_bools(s: Seq<bool>) -> Seq<bool>;
+    pub broadcast axiom fn ax_sorted_bools(s: Seq<bool>)
+        ensures (#[trigger] sorted_bools(s)).len() == s.len(), sorted_bools(s).to_multiset() == s.to_multiset(),
+            forall|i: int, j: int| 0 <= i < j < s.len() ==> (sorted_bools(s)[i] ==> sorted_bools(s)[j]);
+    #[verifier::external_body]
+    pub fn sort_by_partial_cmp(v: &mut Vec<bool>)
+        ensures final(v)@ == sorted_bools(old(v)@),
+    { v.sort_by(|a, b| a.partial_cmp(b).unwrap()) }
+    pub uninterp spec fn f_total_le(a: f32, b: f32) -> bool;
+    pub uninterp spec fn sorted_floats(s: Seq<f32>) -> Seq<f32>;
+    pub broadcast axiom fn ax_sorted_floats(s: Seq<f32>)
+        ensures (#[trigger] sorted_floats(s)).len() == s.len(), sorted_floats(s).to_multiset() == s.to_multiset(),
+            forall|i: int, j: int| 0 <= i < j < s.len() ==> f_total_le(sorted_floats(s)[i], sorted_floats(s)[j]);
+    #[verifier::external_body]
+    pub fn sort_by_total_cmp(v: &mut Vec<f32>)
+        ensures final(v)@ == sorted_floats(old(v)@),
+    { v.sort_by(|a, b| a.total_cmp(b)) }
     // R11: printing a value through its Display impl is a deterministic function of the value; the text itself stays uninterpreted
     #[verifier::external_trait_specification]
     pub trait ExDisplay: core::marker::PointeeSized {
@@ -406,7 +426,7 @@ pub mod spec {
             <f32 as RemSpec>::obeys_rem_spec(),
             <f32 as PartialOrdSpec>::obeys_partial_cmp_spec(), <f32 as PartialEqSpec>::obeys_eq_spec();
     pub broadcast group group_float_total {
-        ax_f32_add_req, ax_f32_sub_req, ax_f32_mul_req, ax_f32_div_req, ax_f32_rem_req, ax_f32_obeys, ax_normal_std_ok, ax_f32_constants,
+        ax_f32_add_req, ax_f32_sub_req, ax_f32_mul_req, ax_f32_div_req, ax_f32_rem_req, ax_f32_obeys, ax_normal_std_ok, ax_f32_constants, ax_sorted_bools, ax_sorted_floats,
     }
     pub open spec fn f32_add(a: f32, b: f32) -> f32 { a.add_spec(b) }
     pub open spec fn f32_sub(a: f32, b: f32) -> f32 { a.sub_spec(b) }
